@@ -450,13 +450,14 @@ class C02:
         return n
 
 
-def run(ctx: Ctx):
+def run(ctx: Ctx, who_may_write=True):
     ctx.rule("R02.1", "no conversion can write a store after it was snapshot (evaluation order)", 50)
     ctx.rule("R02.2", "reference keywords derive from the owning adapter's to_aoef with matching data class", 30)
     ctx.rule("R02.3", "sub-adapters are wired from the collection's shared adapters, to the right parameters", 60)
     ctx.rule("R02.4", "id allocation: before insertion, dense tag ids, tag key == stored fields", 4)
     ctx.rule("R02.5", "store after assemble; values() in insertion order; no overrides", 18)
-    ctx.rule("R02.6", "only DataAdapter methods write the lookup tables", 9)
+    if who_may_write:
+        ctx.rule("R02.6", "only DataAdapter methods write the lookup tables", 9)
     c = C02(ctx)
     for leaf in c.ao.leaves.values():
         c.check_refs(leaf.name, leaf.ci, leaf.writer_name, leaf.D, leaf.O, dict(leaf.dep_attrs))
@@ -467,5 +468,6 @@ def run(ctx: Ctx):
         if found[0].qual == col.ci.qual:
             c.check_refs(col.ci.name, col.ci, "to_aoef", col.D, col.O, {a: w.cls for a, w in col.wires.items()})
     c.check_allocation()
-    c.check_who_may_write()
+    if who_may_write:
+        c.check_who_may_write()
     return EXPLANATION, ASSUMPTIONS
